@@ -52,7 +52,7 @@ FIELD_NAMES = {
     "soft_keyword": ["match", "case"],
 }
 ENUM_NAMES = ["Color", "Kind", "Status", "Mode", "level", "HTTPMethod", "Type_", "EnumValue", "BytesValue", "NullValue"]
-ENUM_VALUE_WORDS = ["UNKNOWN", "RED", "ON", "OFF", "A", "B", "None", "DEFAULT", "V1", "x", "lower_val", "CamelVal", "TWO_WORDS"]
+ENUM_VALUE_WORDS = ["UNKNOWN", "RED", "ON", "OFF", "A", "B", "None", "DEFAULT", "V1", "x", "lower_val", "CamelVal", "TWO_WORDS", "_MAX_", "_first_", "_1_", "real", "numerator", "name", "value"]
 SERVICE_NAMES = ["Svc", "Greeter", "DataAPI", "lower_service", "HTTPService", "_3DSecure", "__2fa", "none", "Type"]
 METHOD_NAMES = ["Get", "List", "DoThing", "get_item", "StreamIt", "HTTPCall", "import", "class", "Print", "Send2", "x"]
 
